@@ -355,6 +355,8 @@ class XPathContext:
         if varnames is None:
             varnames = []
         iterators = [x(copy(self)) for x in selectors]  # each range in its own copy of the focus
+        missing = object()
+        outer = [self.variables.get(name, missing) for name in varnames]
         dimension = len(iterators)
         prod = [None] * dimension
         max_index = dimension - 1
@@ -362,6 +364,14 @@ class XPathContext:
         k = 0
         while True:
             for value in iterators[k]:
+                # the variables of the following clauses are out of scope for the
+                # range expressions that are evaluated again for the new tuple
+                for j in range(k + 1, len(varnames)):
+                    if outer[j] is missing:
+                        self.variables.pop(varnames[j], None)
+                    else:
+                        self.variables[varnames[j]] = outer[j]
+
                 try:
                     self.variables[varnames[k]] = value
                 except IndexError:
